@@ -561,7 +561,7 @@ struct ConnObs {
 }
 
 /// one hostile input on a fresh client connection
-fn run_conn(p: &mut Proxy, input: &[u8], k: usize, tail: Tail, nonce: u64) -> ConnObs {
+fn run_conn(p: &mut Proxy, input: &[u8], k: usize, tail: Tail, nonce: u64, quiet_ms: u64) -> ConnObs {
     let t0 = Instant::now();
     let done = |line: String| ConnObs { line, wall_ms: t0.elapsed().as_millis() };
     let mut c = match TcpStream::connect(("127.0.0.1", p.port)) {
@@ -601,7 +601,7 @@ fn run_conn(p: &mut Proxy, input: &[u8], k: usize, tail: Tail, nonce: u64) -> Co
             break;
         }
         if tail == Tail::Pending && replies >= k && quiet_until.is_none() && !panic_seen {
-            quiet_until = Some(Instant::now() + Duration::from_millis(250));
+            quiet_until = Some(Instant::now() + Duration::from_millis(quiet_ms));
         }
         let now = Instant::now();
         let limit = match quiet_until { Some(q) => q.min(deadline), None => deadline };
@@ -1294,6 +1294,7 @@ struct ChildCtx {
     nonce: u64,
     walls: Vec<u128>,
     max_rss_growth: u64,
+    quiet_ms: u64,
 }
 
 impl ChildCtx {
@@ -1333,7 +1334,7 @@ fn run_child_conn(cx: &mut ChildCtx, st: &mut Streams, input: &[u8], hint: Optio
         hint.unwrap_or((0, Tail::Unknown))
     };
     cx.nonce += 1;
-    let obs = run_conn(&mut cx.proxy, input, k, tail, cx.nonce);
+    let obs = run_conn(&mut cx.proxy, input, k, tail, cx.nonce, cx.quiet_ms);
     cx.walls.push(obs.wall_ms);
     let kind = obs.line.split(' ').next().unwrap_or("?").to_string();
     st.stats.count(&format!("out.{}.{}", cx.phase, kind));
@@ -1469,7 +1470,7 @@ fn child_stream(args: &Args, rng: &mut Rng) {
     let backend = spawn_backend();
     let proxy = spawn_proxy(&bin, &tmp, ar);
     let mut cx = ChildCtx { bin, tmp, backend_port: backend.port, proxy, phase: "pre".into(), ar, epoch: 0, restarts: 0,
-        nonce: args.seed << 20, walls: vec![], max_rss_growth: 0 };
+        nonce: args.seed << 20, walls: vec![], max_rss_growth: 0, quiet_ms: if args.thorough { 120 } else { 250 } };
     let es = std::mem::size_of::<RespIndex>();
     if let Some(p) = &args.replay {
         st.case();
@@ -1502,7 +1503,8 @@ fn child_stream(args: &Args, rng: &mut Rng) {
     }
     let total = if args.thorough { 20_000 } else { 200 };
     // the expensive classes (a stall costs 5 s and a restart, a deep nest costs the model seconds)
-    let (n_spin, n_wedge, n_deep, n_huge, n_ovf) = if args.thorough { (4, 4, 2, 12, 8) } else { (1, 1, 1, 2, 1) };
+    // (the corpus replays one of each on every run)
+    let (n_spin, n_wedge, n_deep, n_huge, n_ovf) = if args.thorough { (4, 4, 2, 12, 8) } else { (1, 1, 0, 2, 1) };
     let mut plan: Vec<(&'static str, Gen)> = vec![];
     let phases = ["pre", "post", "slow"];
     for i in 0..total {
@@ -1567,11 +1569,11 @@ fn child_stream(args: &Args, rng: &mut Rng) {
         (true, vec![(0, 100), (200, 300)]),
         (false, vec![(100, 199), (300, 300)]),
         (true, vec![(300, 300), (100, 199)]),
-        (false, vec![(300, 300), (100, 199)]),                // F16d
-        (true, vec![(0, 999_999_999_999_999)]),               // F16e
         (true, vec![(0, 2_000_000)]),                         // walked, fast
     ];
     if args.thorough {
+        metas.push((false, vec![(300, 300), (100, 199)]));                // F16d
+        metas.push((true, vec![(0, 999_999_999_999_999)]));               // F16e
         metas.push((false, vec![(16383, 0)]));
         metas.push((false, vec![(0, 18_446_744_073_709_551_615)]));
         metas.push((true, vec![(16000, 16383), (17000, 9_000_000_000_000_000_000)]));
